@@ -1,4 +1,444 @@
 package main
 
-func cmdCheck(args []string) int    { return 2 }
-func cmdSelftest(args []string) int { return 2 }
+// `gvc check`: decide one property. Loads the packages the property needs
+// from /repo's working tree, verifies every contract serving the property,
+// handles known findings, writes evidence and replay files.
+
+import (
+	"encoding/json"
+	"flag"
+	"fmt"
+	"os"
+	"path/filepath"
+	"sort"
+	"strconv"
+	"strings"
+	"time"
+)
+
+type PropConfig struct {
+	Pkgs       []string `json:"pkgs"`
+	Title      string   `json:"title"`
+	Trusted    []string `json:"trusted_base"`
+	Assume     []string `json:"assumptions"`
+	Lemmas     []string `json:"lemmas"`
+	Inst       bool     `json:"inst"`
+	Bounded    []string `json:"bounded_standins"`
+	MinObl     int      `json:"min_obligations"`
+}
+
+type Finding struct {
+	Kind       string // finding | fixed
+	Property   string
+	Obligation string
+	Region     string
+	Input      string
+	Text       string
+	Line       string
+}
+
+func loadFindings(path string) []Finding {
+	data, err := os.ReadFile(path)
+	if err != nil {
+		return nil
+	}
+	var out []Finding
+	for _, l := range strings.Split(string(data), "\n") {
+		l = strings.TrimSpace(l)
+		if l == "" || strings.HasPrefix(l, "#") {
+			continue
+		}
+		f := Finding{Line: l}
+		switch {
+		case strings.HasPrefix(l, "finding:"):
+			f.Kind = "finding"
+			l = strings.TrimSpace(strings.TrimPrefix(l, "finding:"))
+		case strings.HasPrefix(l, "fixed:"):
+			f.Kind = "fixed"
+			l = strings.TrimSpace(strings.TrimPrefix(l, "fixed:"))
+		default:
+			continue
+		}
+		// key=value pairs; region={...} input={...} may contain spaces inside braces
+		rest := l
+		for rest != "" {
+			rest = strings.TrimSpace(rest)
+			i := strings.Index(rest, "=")
+			sp := strings.Index(rest, " ")
+			if i < 0 || (sp >= 0 && sp < i) {
+				f.Text = rest
+				break
+			}
+			key := rest[:i]
+			val := ""
+			after := rest[i+1:]
+			if strings.HasPrefix(after, "{") {
+				j := strings.Index(after, "}")
+				val = after[1:j]
+				rest = after[j+1:]
+			} else {
+				j := strings.Index(after, " ")
+				if j < 0 {
+					val, rest = after, ""
+				} else {
+					val, rest = after[:j], after[j+1:]
+				}
+			}
+			switch key {
+			case "property":
+				f.Property = val
+			case "obligation":
+				f.Obligation = val
+			case "region":
+				f.Region = val
+			case "input":
+				f.Input = val
+			default:
+				f.Text = key + "=" + val + " " + rest
+				rest = ""
+			}
+		}
+		out = append(out, f)
+	}
+	return out
+}
+
+type obligationReport struct {
+	Name    string   `json:"name"`
+	Kind    string   `json:"kind"`
+	Fn      string   `json:"function"`
+	Status  string   `json:"status"`
+	Solver  string   `json:"solver,omitempty"`
+	Second  string   `json:"confirmed_by,omitempty"`
+	Seconds float64  `json:"solver_s"`
+	Paths   int      `json:"path_instances"`
+	Goal    string   `json:"goal,omitempty"`
+}
+
+func cmdCheck(args []string) int {
+	fs := flag.NewFlagSet("check", flag.ExitOnError)
+	repo := fs.String("repo", "/repo", "repository")
+	verif := fs.String("verif", "/verif", "verif dir")
+	prop := fs.String("prop", "", "property id")
+	tier := fs.String("tier", os.Getenv("VERIF_TIER"), "quick|thorough")
+	noEvidence := fs.Bool("no-evidence", false, "do not write the evidence file (selftest)")
+	keep := fs.String("keep", "", "keep query files in this directory")
+	fs.Parse(args)
+	if *tier == "" {
+		*tier = "quick"
+	}
+	if *prop == "" {
+		usage()
+	}
+	seed, _ := strconv.Atoi(os.Getenv("VERIF_SEED"))
+	t0 := time.Now()
+	var props map[string]*PropConfig
+	data, err := os.ReadFile(filepath.Join(*verif, "props.json"))
+	if err != nil {
+		fmt.Fprintln(os.Stderr, "cannot read props.json:", err)
+		return 3
+	}
+	if err := json.Unmarshal(data, &props); err != nil {
+		fmt.Fprintln(os.Stderr, "props.json:", err)
+		return 3
+	}
+	pc := props[*prop]
+	if pc == nil {
+		fmt.Fprintln(os.Stderr, "unknown property", *prop)
+		return 3
+	}
+	repoDir := *repo
+	pkgs := pc.Pkgs
+	var instInfo *InstInfo
+	if pc.Inst {
+		ii, err := prepareInst(*repo, *verif, *tier)
+		if err != nil {
+			fmt.Fprintln(os.Stderr, "BROKEN-CHECK: instance corpus:", err)
+			return 3
+		}
+		defer ii.cleanup()
+		instInfo = ii
+		repoDir = ii.dir
+		pkgs = ii.pkgs
+	}
+	p, err := loadProgram(repoDir, pkgs)
+	if err != nil {
+		// A tree that does not type-check cannot be verified: report as broken build.
+		fmt.Fprintln(os.Stderr, "BROKEN-CHECK: cannot load packages:", err)
+		return 3
+	}
+	p.repo = *repo
+	cs, err := p.collectContracts(*verif)
+	if err != nil {
+		fmt.Fprintln(os.Stderr, "BROKEN-CHECK: contracts:", err)
+		return 3
+	}
+	if instInfo != nil {
+		if err := instInfo.addContracts(p, cs, *prop); err != nil {
+			fmt.Fprintln(os.Stderr, "BROKEN-CHECK: instance contracts:", err)
+			return 3
+		}
+	}
+	loadS := time.Since(t0).Seconds()
+	timeout := 10 * time.Second
+	confirm := false
+	if *tier == "thorough" {
+		timeout = 60 * time.Second
+		confirm = true
+	}
+	dir := *keep
+	if dir == "" {
+		dir, _ = os.MkdirTemp("", "gvc-"+*prop+"-")
+		defer os.RemoveAll(dir)
+	} else {
+		os.MkdirAll(dir, 0o755)
+	}
+	findings := loadFindings(filepath.Join(*verif, "known_findings.txt"))
+	activeFindings := map[string][]Finding{}
+	for _, f := range findings {
+		if f.Kind == "finding" && f.Property == *prop {
+			activeFindings[f.Obligation] = append(activeFindings[f.Obligation], f)
+		}
+	}
+	sem := make(chan struct{}, 16)
+	var reports []obligationReport
+	var violations []*aggGoal
+	var broken []string
+	var fnsUnder, inlined, usedExt, trustedUsed, uncontracted, notes []string
+	seenUsed := map[string]bool{}
+	totalObl, totalOK := 0, 0
+	solverTime := 0.0
+	solverCount := map[string]int{}
+	knownConfirmed := map[string]bool{}
+	var samples []interface{}
+	nFns := 0
+	totalInstr := 0
+	for _, ct := range cs.Order {
+		if ct.External || ct.Trusted || ct.Opaque {
+			continue
+		}
+		serves := hasProp(ct.Props, *prop)
+		for _, cl := range append(append([]*Clause{}, ct.Ensures...), ct.Requires...) {
+			if hasProp(cl.Props, *prop) && len(cl.Props) > 0 {
+				serves = true
+			}
+		}
+		if !serves {
+			continue
+		}
+		nFns++
+		fr := p.verifyFunctionWith(cs, ct, activeFindings)
+		totalInstr += fr.Instrs
+		fnsUnder = append(fnsUnder, fmt.Sprintf("%s (%d SSA instrs, %d paths)", shortFn(ct.Func), fr.Instrs, fr.Paths))
+		for _, n := range fr.Inlined {
+			inlined = append(inlined, n)
+		}
+		for _, n := range fr.Uncontracted {
+			uncontracted = append(uncontracted, n)
+		}
+		notes = append(notes, fr.Notes...)
+		for _, n := range fr.Used {
+			if seenUsed[n] {
+				continue
+			}
+			seenUsed[n] = true
+			if c2 := cs.ByFunc[n]; c2 != nil {
+				if c2.External {
+					usedExt = append(usedExt, "assumed contract: "+shortFn(n))
+				} else if c2.Trusted {
+					trustedUsed = append(trustedUsed, "trusted contract on /repo function: "+shortFn(n))
+				}
+			}
+		}
+		if !fr.Attached || len(fr.Unsupported) > 0 || len(fr.SpecErrs) > 0 {
+			a := &aggGoal{Name: shortFn(ct.Func) + "#attached", Kind: "attached", Fn: ct.Func, Status: "detached", Props: ct.Props}
+			why := "function or loop named by the contract not found in the working tree"
+			if len(fr.Unsupported) > 0 {
+				why = "function left the supported subset: " + strings.Join(fr.Unsupported, "; ")
+			}
+			if len(fr.SpecErrs) > 0 {
+				why = "contract no longer resolves against the code: " + strings.Join(fr.SpecErrs, "; ")
+			}
+			a.Text = why
+			violations = append(violations, a)
+			totalObl++
+			reports = append(reports, obligationReport{Name: a.Name, Kind: "attached", Fn: shortFn(ct.Func), Status: "detached", Goal: why})
+			if !fr.Attached {
+				continue
+			}
+		} else {
+			totalObl++
+			totalOK++
+			reports = append(reports, obligationReport{Name: shortFn(ct.Func) + "#attached", Kind: "attached", Fn: shortFn(ct.Func), Status: "discharged", Solver: "structural"})
+		}
+		outs := discharge(dir, fr, timeout, confirm, sem, *keep != "")
+		agg := aggregate(outs)
+		for _, a := range agg {
+			if !hasProp(a.Props, *prop) {
+				continue
+			}
+			if a.Kind == "cover" {
+				if strings.HasSuffix(a.Name, "#known") {
+					if a.OK {
+						knownConfirmed[strings.TrimSuffix(a.Name, "#known")] = true
+					}
+					continue
+				}
+				if !a.OK {
+					broken = append(broken, fmt.Sprintf("vacuity guard %s came back unsat (%s)", a.Name, a.Text))
+				}
+				continue
+			}
+			totalObl++
+			solverTime += a.Seconds
+			r := obligationReport{Name: a.Name, Kind: a.Kind, Fn: shortFn(a.Fn), Status: a.Status, Solver: a.Solver, Second: a.Second, Seconds: round3(a.Seconds), Paths: a.Instances, Goal: a.Text}
+			reports = append(reports, r)
+			if a.OK {
+				totalOK++
+				solverCount[a.Solver]++
+				if strings.HasPrefix(a.Second, "DISAGREE") {
+					broken = append(broken, fmt.Sprintf("solvers disagree on %s: %s", a.Name, a.Second))
+				}
+				if len(samples) < 6 && a.Kind != "nopanic" && a.Solver != "syntactic" {
+					samples = append(samples, map[string]interface{}{"obligation": a.Name, "goal": a.Text, "solver": a.Solver, "solver_s": round3(a.Seconds), "paths": a.Instances})
+				}
+			} else {
+				violations = append(violations, a)
+			}
+		}
+	}
+	// result
+	exit := 0
+	nViol := 0
+	os.MkdirAll(filepath.Join(*verif, "replays", *prop), 0o755)
+	for _, f := range findings {
+		if f.Kind == "finding" && f.Property == *prop {
+			if knownConfirmed[f.Obligation] {
+				fmt.Printf("KNOWN-FINDING: property=%s obligation=%s input={%s} %s\n", *prop, f.Obligation, f.Input, f.Text)
+			} else {
+				fmt.Printf("note: recorded finding on %s no longer reproduces (region {%s})\n", f.Obligation, f.Region)
+			}
+		}
+	}
+	for _, v := range violations {
+		nViol++
+		rp := filepath.Join(*verif, "replays", *prop, sanitize(v.Name)+".json")
+		tail := writeReplay(*repo, *verif, rp, *prop, v, cs)
+		fmt.Printf("VIOLATION property=%s replay=%s obligation=%s %s%s\n", *prop, rp, v.Name, v.Status, tail)
+		exit = 1
+	}
+	if len(broken) > 0 {
+		for _, b := range broken {
+			fmt.Println("BROKEN-CHECK:", b)
+		}
+		if exit == 0 {
+			exit = 2
+		}
+	}
+	if nFns == 0 || totalObl == 0 {
+		fmt.Println("BROKEN-CHECK: no obligations generated for", *prop)
+		exit = 2
+	}
+	if pc.MinObl > 0 && totalObl < pc.MinObl {
+		fmt.Printf("BROKEN-CHECK: only %d obligations generated for %s, expected at least %d (contracts detached?)\n", totalObl, *prop, pc.MinObl)
+		if exit == 0 {
+			exit = 2
+		}
+	}
+	wall := time.Since(t0).Seconds()
+	fmt.Printf("%s: %d functions under contract, %d obligations, %d discharged, %d violations; load %.1fs, solver %.1fs, wall %.1fs\n",
+		*prop, nFns, totalObl, totalOK, nViol, loadS, solverTime, wall)
+	if *noEvidence {
+		return exit
+	}
+	// evidence
+	sort.Strings(inlined)
+	inlined = uniq(inlined)
+	sort.Strings(uncontracted)
+	uncontracted = uniq(uncontracted)
+	sort.Strings(usedExt)
+	sort.Strings(trustedUsed)
+	notes = uniq(notes)
+	trusted := append([]string{
+		"go/types + go/ssa (x/tools v0.29.0, NaiveForm) as the front end; gvc's own translation to SMT-LIB",
+		"SMT solvers z3 5.1.0 (z3-new), z3 4.8.12, cvc5 1.0.3",
+	}, pc.Trusted...)
+	trusted = append(trusted, usedExt...)
+	trusted = append(trusted, trustedUsed...)
+	assumptions := append([]string{
+		"integers are exact-width bit-vectors (no mathematical-integer abstraction); references are unbounded Ints",
+		"partial correctness unless an obligation kind says otherwise: a path that panics satisfies no postcondition obligation; #nopanic obligations exist only for contracts marked nopanic",
+		"A-STDLIB-PURE: fmt/strings/strconv/errors/filepath/math functions do not write to memory reachable from their arguments",
+		"A-FUNCVAL: calls through function values resolve to module functions with an identical signature",
+	}, pc.Assume...)
+	for _, n := range uncontracted {
+		assumptions = append(assumptions, "uncontracted callee (results havoc, inferred mod-set havoc): "+n)
+	}
+	for _, n := range notes {
+		assumptions = append(assumptions, "note: "+n)
+	}
+	for _, l := range pc.Lemmas {
+		assumptions = append(assumptions, "unproved lemma: "+l)
+	}
+	for _, b := range pc.Bounded {
+		assumptions = append(assumptions, "bounded stand-in (not counted as proof): "+b)
+	}
+	if len(samples) == 0 {
+		for _, r := range reports {
+			samples = append(samples, r)
+			if len(samples) >= 3 {
+				break
+			}
+		}
+	}
+	cov := map[string]interface{}{
+		"obligations":  totalObl,
+		"discharged":   totalOK,
+		"checker_cmd":  fmt.Sprintf("/verif/bin/gvc check -prop %s -tier %s", *prop, *tier),
+		"trusted_base": trusted,
+		"samples":      samples,
+		"functions_under_contract": fnsUnder,
+		"inlined_functions":        inlined,
+		"ssa_instructions":         totalInstr,
+		"solver_time_s":            round3(solverTime),
+		"discharged_by_solver":     solverCount,
+		"obligation_list":          reports,
+		"known_findings_confirmed": len(knownConfirmed),
+		"load_s":                   round3(loadS),
+	}
+	if instInfo != nil {
+		cov["programs"] = len(instInfo.schemas)
+		cov["corpus"] = instInfo.schemas
+	}
+	ev := map[string]interface{}{
+		"property_id": *prop,
+		"tier":        *tier,
+		"seed":        seed,
+		"level":       "proof",
+		"coverage":    cov,
+		"assumptions": assumptions,
+		"wall_s":      round3(wall),
+		"violations":  nViol,
+	}
+	os.MkdirAll(filepath.Join(*verif, "evidence"), 0o755)
+	out, _ := json.MarshalIndent(ev, "", " ")
+	if err := os.WriteFile(filepath.Join(*verif, "evidence", *prop+".json"), out, 0o644); err != nil {
+		fmt.Fprintln(os.Stderr, "cannot write evidence:", err)
+		return 3
+	}
+	return exit
+}
+
+func round3(f float64) float64 { return float64(int(f*1000+0.5)) / 1000 }
+
+func uniq(xs []string) []string {
+	var out []string
+	for i, x := range xs {
+		if i == 0 || x != xs[i-1] {
+			out = append(out, x)
+		}
+	}
+	return out
+}
+
+func cmdSelftest(args []string) int { return selftest(args) }
